@@ -462,6 +462,11 @@ impl OsIpcSender {
         let name = CString::new(name).unwrap();
         unsafe {
             let fd = libc::socket(libc::AF_UNIX, SOCK_SEQPACKET | SOCK_FLAGS, 0);
+            if fd < 0 {
+                return Err(UnixError::last());
+            }
+            // From here on the descriptor is owned (and closed on failure) by the sender.
+            let sender = OsIpcSender::from_fd(fd);
             let (sockaddr, len) = new_sockaddr_un(name.as_ptr());
             if libc::connect(
                 fd,
@@ -472,7 +477,7 @@ impl OsIpcSender {
                 return Err(UnixError::last());
             }
 
-            Ok(OsIpcSender::from_fd(fd))
+            Ok(sender)
         }
     }
 }
@@ -689,15 +694,25 @@ impl Drop for OsIpcOneShotServer {
 impl OsIpcOneShotServer {
     pub fn new() -> Result<(OsIpcOneShotServer, String), UnixError> {
         unsafe {
-            let fd = libc::socket(libc::AF_UNIX, SOCK_SEQPACKET | SOCK_FLAGS, 0);
             let temp_dir = Builder::new().tempdir()?;
             let socket_path = temp_dir.path().join("socket");
-            let path_string = socket_path.to_str().unwrap();
+            let path_string = socket_path.to_str().unwrap().to_string();
 
-            let path_c_string = CString::new(path_string).unwrap();
+            let fd = libc::socket(libc::AF_UNIX, SOCK_SEQPACKET | SOCK_FLAGS, 0);
+            if fd < 0 {
+                return Err(UnixError::last());
+            }
+            // From here on the descriptor and the directory are owned by the server object,
+            // which closes / removes them on the error paths below as well.
+            let server = OsIpcOneShotServer {
+                fd,
+                _temp_dir: temp_dir,
+            };
+
+            let path_c_string = CString::new(path_string.as_str()).unwrap();
             let (sockaddr, len) = new_sockaddr_un(path_c_string.as_ptr());
             if libc::bind(
-                fd,
+                server.fd,
                 &sockaddr as *const _ as *const sockaddr,
                 len as socklen_t,
             ) != 0
@@ -705,17 +720,11 @@ impl OsIpcOneShotServer {
                 return Err(UnixError::last());
             }
 
-            if libc::listen(fd, 10) != 0 {
+            if libc::listen(server.fd, 10) != 0 {
                 return Err(UnixError::last());
             }
 
-            Ok((
-                OsIpcOneShotServer {
-                    fd,
-                    _temp_dir: temp_dir,
-                },
-                path_string.to_string(),
-            ))
+            Ok((server, path_string))
         }
     }
 
